@@ -119,3 +119,17 @@ fn k_chardat_checksum_empty_comment() {
     kani::cover!(true, "reachable");
     core::mem::forget(cd);
 }
+
+//@use_common
+
+//@unit props=C17 label=B tier=quick native=1 fn=chardat::CharacterData::from_existing bound="by execution: every truncation and 7 single-byte corruptions per byte of the four 212-byte presets under resources/tests/chardat"
+//@desc damaged character presets (truncated anywhere, any single byte damaged incl. enum bytes, invalid UTF-8 and missing NUL in the comment) yield None or a value, never a panic
+#[test]
+fn native_chardat_damaged_nopanic() {
+    let mut cases = 0u64;
+    let f = |b: &[u8]| { let _ = CharacterData::from_existing(b); };
+    for name in ["chardat/arr.dat", "chardat/heavensward.dat", "chardat/stormblood.dat", "chardat/shadowbringers.dat"] {
+        cases += native_sweep(&native_resource(name), 4096, 1, &f);
+    }
+    println!("NATIVE native_chardat_damaged_nopanic cases={cases}");
+}
